@@ -6,7 +6,7 @@ from .. import gen as G
 from .common import TRUSTED, ASSUMPTIONS, default_nontrivial, LEVEL_NOTE, TECHNIQUE
 
 LEVEL = "proof"
-THEOREMS = ['C12_mul_ok', 'C12_mul_wf', 'C12_mul_base_rate', 'C12_mul_projection', 'C12_comul_ok', 'C12_comul_wf', 'C12_comul_base_rate', 'C12_comul_projection', 'C12_mul_comm', 'C12_comul_comm', 'C12_de_morgan', 'C12_de_morgan_dual', 'C12_mul_assoc', 'C12_comul_assoc', 'C12_defined_iff', 'C12_mul_lift', 'C12_comul_lift', 'C12_mul_sum', 'C12_comul_sum', 'C12_eq_unnormalised']
+THEOREMS = ['C12_mul_ok', 'C12_mul_wf', 'C12_mul_base_rate', 'C12_mul_projection', 'C12_comul_ok', 'C12_comul_wf', 'C12_comul_base_rate', 'C12_comul_projection', 'C12_mul_comm', 'C12_comul_comm', 'C12_de_morgan', 'C12_de_morgan_dual', 'C12_mul_assoc', 'C12_comul_assoc', 'C12_defined_iff', 'C12_mul_lift', 'C12_comul_lift', 'C12_mul_sum', 'C12_comul_sum', 'C12_eq_unnormalised', 'C12_comul_eq_numer_first']
 RULE = ("bmul/bcomul on pairs of well-formed binomial opinions: 1/8 grid (exhaustive in thorough, sampled in quick), "
         "random dyadic grids up to 1/64, arbitrary floats; blaw kinds 0..5 (commutativity, associativity, De Morgan) on "
         "pairs/triples; variant `p` (bmul/bcomul also report BOpinion::projection() of both operands and of the result: the method must "
@@ -170,6 +170,29 @@ def cases(rng, tier):
             else:
                 out.append(G.line("blaw", fmt, "B.o", [rng.randint(0, 5)], x + y + z))
 
+        # SUBNORMAL base rates (comul divides by a = ax + ay - ax*ay, which is then subnormal too): with the base rates as
+        # factors of the numerators their bits are lost before the division restores the scale, and the renormalisation
+        # turns the garbage into a well-formed opinion with a wrong belief mass (0.52 for 0.34; found by the second bug
+        # hunt, repaired in comul by forming ax/a, ay/a first).  Dyadic masses, exactly well-formed operands.
+        smax = 1074 if fmt == "f64" else 149
+        smin = 1022 if fmt == "f64" else 126
+        for _ in range(N // 4):
+            den = rng.choice([8, 16, 64])
+            x, y = G.rand_bop(rng, den), G.rand_bop(rng, den)
+            x[3] = Fr(rng.choice([1, 1, 3]), 2 ** rng.randint(smin - 8, smax))
+            z = rng.random()
+            y[3] = Fr(0) if z < 0.25 else Fr(rng.choice([1, 1, 3, 5]), 2 ** rng.randint(smin - 8, smax))
+            if G.round_fmt(fmt, float(x[3])) != float(x[3]) or G.round_fmt(fmt, float(y[3])) != float(y[3]):
+                continue
+            if rng.random() < 0.5:
+                x, y = y, x
+            r = rng.random()
+            if r < 0.6:
+                out.append(G.line("bcomul", fmt, "B.o", [], x + y))
+            elif r < 0.8:
+                out.append(G.line("bmul", fmt, "B.o", [], x + y))
+            else:
+                out.append(G.line("blaw", fmt, "B.o", [rng.choice([2, 3])], x + y + G.rand_bop(rng, den)))
         # BOTH base rates near 1 at non-dyadic values: mul divides by 1 - ax*ay, which must not be taken from the rounded product
         # (repair 003f05d; seeded C12_r4A re-introduces `1.0 - a` behind the renormalisation, which hides the panic but not the
         # error eps / (1 - ax*ay) of the quotient terms); dually both near 0 for comul
